@@ -7,6 +7,7 @@ from __future__ import annotations
 
 import itertools
 import gc
+import json
 
 import numpy as np
 import torch
@@ -64,15 +65,22 @@ _FUNCS = {True: _mk_function(True), False: _mk_function(False)}
 
 
 class RealProg:
-    def __init__(self, spec, jac, dtype=torch.float64, leaf_values=None):
+    def __init__(self, spec, jac, dtype=torch.float64, leaf_values=None, scatter=0):
+        """scatter > 0: dummy objects are allocated between the tensors of the program so that their addresses (hence the iteration order of the
+        Python sets torchjd builds from them) vary from one replay attempt to the next"""
         self.spec, self.t = spec, {}
         self.W = {}
+        self._junk = []
+        def pad(i):
+            if scatter:
+                self._junk.append([torch.empty(1) for _ in range((scatter * 7 + i * 3) % 5)] + [object() for _ in range((scatter + i) % 3)])
         for (name, shape, rg) in spec["leaves"]:
             n = int(np.prod(shape)) if shape else 1
             vals = (leaf_values or {}).get(name)
             x = torch.tensor(vals if vals is not None else [0.5 + 0.25 * k for k in range(n)], dtype=dtype).reshape(tuple(shape))
             x.requires_grad_(bool(rg))
             self.t[name] = x
+            pad(len(self.t))
         for o in spec["ops"]:
             ins = [self.t[n] for n in o["inputs"]]
             W = {}
@@ -88,6 +96,7 @@ class RealProg:
             outs = _FUNCS[bool(o.get("vmap_ok", True))].apply(meta, *ins)
             for (n, _), y in zip(o["outs"], outs):
                 self.t[n] = y
+            pad(len(self.t))
             self.W[o["name"]] = W
 
     def __getitem__(self, n):
@@ -208,24 +217,97 @@ def r_backward(c):
     spec = c["spec"]
     leaf_names = [l[0] for l in spec["leaves"]]
     last = None
-    for attempt in range(6):  # the iteration order of set(inputs) depends on object addresses: try several layouts
-        junk = [torch.zeros(3) for _ in range(attempt * 3)]
-        prog = RealProg(spec, c["jac"])
+    # the iteration order of the sets torchjd builds depends on object addresses, which a replay cannot dictate: the scenario is tried with
+    # several memory layouts and (the property being stated for every order) with every order of the output list
+    orders = list(itertools.permutations(c["outputs"]))
+    orders.sort(key=lambda o: list(o) != list(c["outputs"]))
+    attempt = 0
+    for outs in orders:
+        for layout in range(8):
+            attempt += 1
+            junk = [torch.zeros(3) for _ in range(layout * 3)]
+            prog = RealProg(spec, c["jac"], scatter=layout)
+            set_old(prog, c.get("old"))
+            before = grads(prog, leaf_names)
+            agg = Agg([])  # the stand-in aggregator answers with a fixed function of the column index (the model's values belong to its own row order)
+            kw = {}
+            if c.get("inputs") is not None:
+                kw["inputs"] = as_container([prog[n] for n in c["inputs"]], c.get("container"))
+            backward([prog[n] for n in outs], agg, parallel_chunk_size=c.get("chunk"), retain_graph=bool(c.get("retain_graph", False)), **kw)
+            after = grads(prog, leaf_names)
+            ins = c["inputs"] if c.get("inputs") is not None else c.get("expected_inputs", [])
+            probs = check_backward_effect(prog, list(outs), ins, agg, before, after, leaf_names)
+            last = dict(reproduced=bool(probs), why=probs[:3], attempt=attempt, outputs=list(outs))
+            if probs:
+                return last
+            del junk
+    # CPython iterates a set of <= 4 tensors in insertion order (object addresses are 16-byte aligned and collide in an 8-slot table), so an
+    # order-dependent fault may be invisible on a small program.  The same scenario is therefore also tried AMPLIFIED: extra outputs and extra
+    # leaves (with their own random local Jacobians) are added to the program - still an instance of the property, with sets large enough to be hashed.
+    rng = np.random.default_rng(0)
+    for amp in range(6):
+        spec2 = json.loads(json.dumps(spec))
+        jac2 = dict(c["jac"])
+        base_in = spec2["ops"][0]["inputs"][0] if spec2["ops"] else spec2["leaves"][0][0]
+        req_leaves = [l[0] for l in spec2["leaves"] if l[2]]
+        extra_leaves = [f"xl{i}" for i in range(4)]
+        for n in extra_leaves:
+            spec2["leaves"].append([n, [2], True])
+        extra_outs = []
+        for i in range(5):
+            on = f"xo{i}"
+            ins_i = [req_leaves[0], extra_leaves[i % 4]]
+            spec2["ops"].append(dict(name=f"xop{i}", inputs=ins_i, outs=[[on, [1 + i % 2]]], deps=[[0, 0], [0, 1]], saves=True, vmap_ok=True))
+            shapes = {l[0]: l[1] for l in spec2["leaves"]}
+            for j, iname in enumerate(ins_i):
+                ncol = int(np.prod(shapes[iname])) if shapes[iname] else 1
+                jac2[f"xop{i}:0:{j}"] = rng.integers(-3, 4, size=(1 + i % 2, ncol)).astype(float).tolist()
+            extra_outs.append(on)
+        outs = list(c["outputs"]) + extra_outs
+        rng.shuffle(outs)
+        prog = RealProg(spec2, jac2, scatter=amp)
         set_old(prog, c.get("old"))
-        before = grads(prog, leaf_names)
-        agg = Agg(c.get("v") or [])
-        kw = {}
-        if c.get("inputs") is not None:
-            kw["inputs"] = as_container([prog[n] for n in c["inputs"]], c.get("container"))
-        backward([prog[n] for n in c["outputs"]], agg, parallel_chunk_size=c.get("chunk"), retain_graph=bool(c.get("retain_graph", False)), **kw)
-        after = grads(prog, leaf_names)
-        ins = c["inputs"] if c.get("inputs") is not None else c.get("expected_inputs", [])
-        probs = check_backward_effect(prog, c["outputs"], ins, agg, before, after, leaf_names)
-        last = dict(reproduced=bool(probs), why=probs[:3], attempt=attempt)
+        names2 = [l[0] for l in spec2["leaves"]]
+        before = grads(prog, names2)
+        agg = Agg([])
+        ins = (list(c["inputs"]) if c.get("inputs") is not None else list(c.get("expected_inputs", []))) + extra_leaves
+        rng.shuffle(ins)
+        backward([prog[n] for n in outs], agg, inputs=as_container([prog[n] for n in ins], c.get("container")), parallel_chunk_size=c.get("chunk"))
+        after = grads(prog, names2)
+        if len(ins) <= 6:
+            probs = check_backward_effect(prog, outs, ins, agg, before, after, names2)
+        else:
+            probs = check_backward_effect_big(prog, outs, ins, agg, before, after, names2)
         if probs:
-            return last
-        del junk
+            return dict(reproduced=True, why=probs[:3], amplified=True, outputs=outs, inputs=ins)
     return last
+
+
+def check_backward_effect_big(prog, outs, ins, agg, before, after, leaf_names):
+    """same statement as check_backward_effect without enumerating column orders: the column blocks are matched greedily"""
+    if len(agg.seen) != 1:
+        return [f"aggregator called {len(agg.seen)} times"]
+    M = agg.seen[0]
+    v = np.arange(1, M.shape[1] + 1, dtype=float) * 0.37
+    remaining = list(ins)
+    off = 0
+    probs = []
+    while remaining:
+        hit = None
+        for n in remaining:
+            k = prog[n].numel()
+            J = prog.jacobian(outs, [n])
+            if off + k <= M.shape[1] and close(M[:, off:off + k], J):
+                inc = v[off:off + k].reshape(tuple(prog[n].shape))
+                b = before[n] if before[n] is not None else 0.0
+                if after[n] is not None and close(after[n], b + inc):
+                    hit = n
+                    break
+        if hit is None:
+            return ["no ordering of the inputs makes (matrix seen by the aggregator, deposited slices) consistent with the true Jacobian"]
+        off += prog[hit].numel()
+        remaining.remove(hit)
+    return probs
 
 
 def check_mtl_effect(prog, c, agg, before, after, leaf_names):
@@ -661,7 +743,12 @@ def r_accumulate(c):
             self.seen.append(M)
             if self.cached and self.cache is not None:
                 return self.cache
-            out = torch.arange(1, M.shape[1] + 1, dtype=M.dtype) * (0.5 + len(self.seen))
+            k = len(self.seen) - 1
+            vs = c.get("v") or []
+            if k < len(vs) and len(vs[k]) == M.shape[1]:
+                out = torch.tensor(np.asarray(arr(vs[k]), dtype=float), dtype=M.dtype)  # the aggregator answers exactly as in the counterexample
+            else:
+                out = torch.arange(1, M.shape[1] + 1, dtype=M.dtype) * (0.5 + len(self.seen))
             if self.cached:
                 self.cache = out
                 self.cache_copy = out.clone()
@@ -673,11 +760,12 @@ def r_accumulate(c):
     mode = c["mode"]
     requested = c["requested"]
     leaf_names = [l[0] for l in spec["leaves"]]
+    pv = c.get("pre_values") or {}
     if c.get("pre"):
         for n in (["a"] if mode == "backward" else ["q0", "p1"]):
-            prog[n].grad = torch.full_like(prog[n], 7.0)
+            prog[n].grad = torch.tensor(np.asarray(arr(pv[n]), dtype=float), dtype=prog[n].dtype).reshape(prog[n].shape) if n in pv else torch.full_like(prog[n], 7.0)
     for n in (["c"] if mode == "backward" else ["z"]):
-        prog[n].grad = torch.full_like(prog[n], 3.0)
+        prog[n].grad = torch.tensor(np.asarray(arr(pv[n]), dtype=float), dtype=prog[n].dtype).reshape(prog[n].shape) if n in pv else torch.full_like(prog[n], 3.0)
     agg = Agg(bool(c.get("cached")))
     vals0 = {n: t.detach().clone() for n, t in prog.t.items()}
     others = [n for n in leaf_names if n not in requested]
@@ -696,7 +784,7 @@ def r_accumulate(c):
             elif e == 2:
                 t.grad.zero_()
             elif e == 3:
-                t.grad += 0.125
+                t.grad += (num(c["delta"][k - 1]) if c.get("delta") else 0.125)
         before = {n: (None if prog[n].grad is None else prog[n].grad.clone()) for n in requested}
         handles = {n: prog[n].grad for n in requested}
         call()
